@@ -784,6 +784,11 @@ func (e *Engine) call(fi *fnInfo, st *State, in *ssa.Call) []*State {
 		setRes(st, top)
 		return []*State{st}
 	}
+	if e.owner(callee) && e.writesFields(callee) {
+		// a method of the lexer/parser that does not use the cursor but assigns its fields (p.fail(msg, offset),
+		// l.setRawTag(h)): analysed like the lexer's own code, so that the assignment is seen
+		return e.callKnown(fi, st, in, callee)
+	}
 	if e.pureHelper(callee) {
 		// a small pure helper of the package (l.tmpl.enabled(), isTagOpen(c, next)): analysed like the lexer's own code
 		return e.callKnown(fi, st, in, callee)
